@@ -126,14 +126,5 @@ pub proof fn ax9_g2_assoc(a: Pt2, b: Pt2, c: Pt2) requires on_curve2(a), on_curv
 pub open spec fn g2_smul(k: int, a: Pt2) -> Pt2 decreases k { if k <= 0 { Pt2::Inf } else { g2_add(g2_smul(k - 1, a), a) } }
 // an element of Fp12 as its 12 canonical coefficients (c0.c0.c0, c0.c0.c1, c0.c1.c0, ... in the code's nesting order)
 pub struct Gt { pub c: Seq<int> }
-pub uninterp spec fn gt_one() -> Gt;
-pub uninterp spec fn gt_mul(a: Gt, b: Gt) -> Gt;
-pub open spec fn gt_pow(g: Gt, k: int) -> Gt decreases k { if k <= 0 { gt_one() } else { gt_mul(gt_pow(g, k - 1), g) } }
-// the R-ate pairing of GM/T 0044.1 as an abstract symbol: e9(Q in G2, P in G1)
-pub uninterp spec fn e9(q: Pt2, p: Pt1) -> Gt;
-// bilinearity as used by the scheme-level lemmas (assumed; C12 is not claimed)
-#[verifier::external_body]
-pub proof fn ax9_bilinear(a: int, b: int, q: Pt2, p: Pt1) requires a >= 0, b >= 0, on_curve2(q), on_curve1(p)
-    ensures e9(g2_smul(a, q), g1_smul(b, p)) == gt_pow(e9(q, p), a * b) { }
 // 384-byte serialisation of a GT element (big-endian coefficients, highest first)
 pub open spec fn gt_bytes(g: Gt) -> Seq<u8> decreases g.c.len() { if g.c.len() == 0 { Seq::empty() } else { be_bytes(g.c.last(), 32) + gt_bytes(Gt { c: g.c.drop_last() }) } }
